@@ -509,6 +509,8 @@ class FnExec:
         if nm == "len":
             a = self.expr(n.args[0], st, pc)
             if isinstance(a.t, ListT): return Val(INT, a.t.len(a.z))
+            if isinstance(a.t, DictT):      # number of keys: an (opaque, non-negative) function of the key set
+                f = z3.Function(f"card_{abs(hash(repr(a.t.k))) % 10**6}", z3.ArraySort(a.t.k.sort(), z3.BoolSort()), z3.IntSort()); c = f(a.t.dom(a.z)); pc.append(c >= 0); return Val(INT, c)
             raise Unsupported(f"len of {a.t!r}")
         if nm == "old":
             if st.old is None: raise Unsupported("old() without a pre-state")
